@@ -1,191 +1,10 @@
 import EqsigVerif.Prelude.Wire
-import EqsigVerif.Model.Single
-import EqsigVerif.Model.Multiple
-import EqsigVerif.Model.SpectraFns
-/-! throw-away evaluator used by `validate.py`: `lake env lean --run Scratch.lean < requests > responses` -/
+import EqsigVerif.Handlers.Misc
+/-! throw-away evaluator used by `validate.py`: `lake env lean --run Scratch.lean < requests > responses`
+(same line protocol as `Driver.lean`, table = `Handlers.Misc.handlers`) -/
 open EqsigVerif EqsigVerif.Wire
-open EqsigVerif.Model
 
-def parseMode (s : String) : Except String Single.GibbsMode :=
-  match s with
-  | "none" => pure .none | "start" => pure .start | "end" => pure .end | "mid" => pure .mid
-  | _ => throw s!"bad mode {s}"
-
-def parseOptRat (s : String) : Except String (Option Rat) :=
-  if s = "N" then pure none else do let r ← parseRat s; pure (some r)
-
-def parseContainer (s : String) : Except String Single.Container :=
-  match s with
-  | "list" => pure .list | "tuple" => pure .tuple | "ndarray" => pure .ndarray | "other" => pure .other
-  | _ => throw s!"bad container {s}"
-
-def showFT : Single.FilterType → String
-  | .low => "low" | .high => "high" | .band => "band"
-
-def singleHandlers : List (String × Handler) := [
-  ("running_average", fun
-    | [w, v] => do
-      let w ← nat1 w; let v ← rats v
-      pure (.ok [outRats (Single.runningAverage v w)])
-    | _ => throw "args"),
-  ("butter_book", fun
-    | [n, m, ge] => do
-      let n ← nat1 n; let m ← str1 m; let m ← parseMode m; let ge ← nat1 ge
-      let (a, b, c) := Single.butterBookkeeping n m ge
-      pure (.ok [outNats [a, b, c]])
-    | _ => throw "args"),
-  ("butter_pad", fun
-    | [m, ge, gr, v] => do
-      let m ← str1 m; let m ← parseMode m; let ge ← nat1 ge; let gr ← nat1 gr; let v ← rats v
-      pure (.ok [outRats (Single.butterPad v m ge gr), outRats (Single.butterPass id v m ge gr)])
-    | _ => throw "args"),
-  ("filter_select", fun
-    | [c, items] => do
-      let c ← str1 c; let c ← parseContainer c; let items ← items.mapM parseOptRat
-      pure (ofExcept (fun (ft, cut) => [[showFT ft], outRats cut]) (Single.filterSelect c items))
-    | _ => throw "args"),
-  ("butter_full", fun
-    | [c, items, dt, order, m, ge, gr, v] => do
-      let c ← str1 c; let c ← parseContainer c; let items ← items.mapM parseOptRat
-      let dt ← rat1 dt; let order ← nat1 order
-      let m ← str1 m; let m ← parseMode m; let ge ← nat1 ge; let gr ← nat1 gr; let v ← rats v
-      pure (ofExcept (fun r => [outRats r])
-        (Single.butterPassFull (fun _ _ x => x) c items dt v order m ge gr))
-    | _ => throw "args"),
-  ("remove_poly_with", fun
-    | [cofs, v] => do
-      let cofs ← rats cofs; let v ← rats v
-      pure (.ok [outRats (Single.removePolyWith cofs v)])
-    | _ => throw "args"),
-  ("remove_average", fun
-    | [sec, v] => do
-      let sec ← int1 sec; let v ← rats v
-      pure (ofExcept (fun r => [outRats r]) (Single.removeAverage v sec))
-    | _ => throw "args"),
-  ("add_constant", fun
-    | [c, v] => do
-      let c ← rat1 c; let v ← rats v
-      pure (.ok [outRats (Single.addConstant v c)])
-    | _ => throw "args"),
-  ("add_series", fun
-    | [v, s] => do
-      let v ← rats v; let s ← rats s
-      pure (ofExcept (fun r => [outRats r]) (Single.addSeries v s))
-    | _ => throw "args"),
-  ("add_signal", fun
-    | [dt, v, kind, dt2, s] => do
-      let dt ← rat1 dt; let v ← rats v; let kind ← str1 kind; let dt2 ← rat1 dt2; let s ← rats s
-      let o := if kind = "signal" then Single.Operand.signal dt2 s else .notSignal
-      pure (ofExcept (fun r => [outRats r]) (Single.addSignal dt v o))
-    | _ => throw "args")
-]
-
-/-- rows travel in one field, each row introduced by the marker token `r`: `r 1 2 3 r 4 5 6`; `r` alone = one empty row -/
-def splitRows : List String → List (List String)
-  | [] => []
-  | t :: ts =>
-    let rest := splitRows ts
-    if t = "r" then
-      -- tokens up to the next marker belong to this row
-      (ts.takeWhile (· ≠ "r")) :: rest
-    else rest
-
-def parseSignals (l : List String) : Except String (List (List Rat)) := (splitRows l).mapM rats
-
-def sepSignals (ss : List (List Rat)) : List String :=
-  [" ; ".intercalate (ss.map (fun s => " ".intercalate (outRats s)))]
-
-def multipleHandlers : List (String × Handler) := [
-  ("section_average", fun
-    | [dt, st, en, v] => do
-      let dt ← rat1 dt; let st ← rat1 st; let en ← rat1 en; let v ← rats v
-      pure (ofExcept (fun r => [[showRat r]]) (Multiple.sectionAverage v dt st en))
-    | _ => throw "args"),
-  ("section_average_idx", fun
-    | [st, en, v] => do
-      let st ← int1 st; let en ← int1 en; let v ← rats v
-      pure (ofExcept (fun r => [[showRat r]]) (Multiple.sectionAverageIdx v st en))
-    | _ => throw "args"),
-  ("time_indices", fun
-    | [n, dt, st, en] => do
-      let n ← nat1 n; let dt ← rat1 dt; let st ← rat1 st; let en ← rat1 en
-      pure (ofExcept (fun (a, b) => [outInts [a, b]]) (Multiple.timeIndices n dt st en))
-    | _ => throw "args"),
-  ("same_start", fun
-    | [dt, master, st, en, sigs] => do
-      let dt ← rat1 dt; let master ← nat1 master; let st ← rat1 st; let en ← rat1 en
-      let sigs ← parseSignals sigs
-      pure (ofExcept (fun r => [sepSignals r]) (Multiple.sameStart sigs dt master st en))
-    | _ => throw "args"),
-  ("time_match", fun
-    | [master, steps, sigs] => do
-      let master ← nat1 master; let steps ← nat1 steps
-      let sigs ← parseSignals sigs
-      pure (ofExcept (fun (lag, r) => [[toString lag], sepSignals r]) (Multiple.timeMatch sigs master steps))
-    | _ => throw "args"),
-  ("combine", fun
-    | [c, s, ns, we] => do
-      let c ← rat1 c; let s ← rat1 s; let ns ← rats ns; let we ← rats we
-      pure (ofExcept (fun r => [outRats r]) (Multiple.combineAtAngle c s ns we))
-    | _ => throw "args"),
-  ("rotated_degrees", fun
-    | [off, points] => do
-      let off ← rat1 off; let points ← nat1 points
-      pure (.ok [outRats (Multiple.rotatedDegrees off points)])
-    | _ => throw "args")
-]
-
-def out3 : List Rat × List Rat × List Rat → List (List String)
-  | (a, b, c) => [outRats a, outRats b, outRats c]
-
-def spectraHandlers : List (String × Handler) := [
-  ("pseudo", fun
-    | [twoPi, dt, motion, periods, u] => do
-      let twoPi ← rat1 twoPi; let dt ← rat1 dt; let motion ← rats motion; let periods ← rats periods
-      let u ← parseSignals u
-      pure (ofExcept out3 (SpectraFns.pseudoSpectra twoPi motion dt periods u))
-    | _ => throw "args"),
-  ("true", fun
-    | [dt, motion, periods, u, v, a] => do
-      let dt ← rat1 dt; let motion ← rats motion; let periods ← rats periods
-      let u ← parseSignals u; let v ← parseSignals v; let a ← parseSignals a
-      pure (ofExcept out3 (SpectraFns.trueSpectra motion dt periods u v a))
-    | _ => throw "args"),
-  ("gen_input", fun
-    | [dt, ratio, rt] => do
-      let dt ← rat1 dt; let ratio ← rat1 ratio; let rt ← rats rt
-      pure (ofExcept (fun (r : SpectraFns.SpecInput Rat) => match r with
-          | .raw => [["raw"]]
-          | .interp t => [["interp", showRat t]]) (SpectraFns.genSpectrumInput rt dt ratio))
-    | _ => throw "args"),
-  ("uke", fun
-    | [v] => do
-      let v ← parseSignals v
-      pure (.ok [outRats (SpectraFns.respUkeSpectrum v)])
-    | _ => throw "args"),
-  ("input_energy", fun
-    | [dt, values, v] => do
-      let dt ← rat1 dt; let values ← rats values; let v ← parseSignals v
-      pure (.ok [outRats (SpectraFns.inputEnergySpectrum values v dt)])
-    | _ => throw "args"),
-  ("input_energy_series", fun
-    | [dt, values, v] => do
-      let dt ← rat1 dt; let values ← rats values; let v ← parseSignals v
-      pure (.ok [sepSignals (SpectraFns.inputEnergySeries values v dt)])
-    | _ => throw "args"),
-  ("asi", fun
-    | [c, g, ps] => do
-      let c ← rat1 c; let g ← rat1 g; let ps ← rats ps
-      pure (ofExcept (fun r => [[showRat r]]) (SpectraFns.asi c g ps))
-    | _ => throw "args"),
-  ("vsi", fun
-    | [c, ps] => do
-      let c ← rat1 c; let ps ← rats ps
-      pure (ofExcept (fun r => [[showRat r]]) (SpectraFns.vsi c ps))
-    | _ => throw "args")
-]
-
-def table : List (String × Handler) := singleHandlers ++ multipleHandlers ++ spectraHandlers
+def table : List (String × Handler) := EqsigVerif.Handlers.Misc.handlers
 
 def dispatch (line : String) : String :=
   match line.splitOn "|" with
